@@ -508,7 +508,35 @@ def lexer_harnesses() -> List[Harness]:
                  "lexer.get_line.ends_at_a_newline_or_end_of_input", "lexer.get_line.line_number_counts_newlines_before"],
                 ["LexerHelper::get_line"], unwind=7)
     h.bounded = "newline list of at most 4 positions, gaps < 1000, unwind(7) with unwinding assertions"
-    return [h]
+    # LexerHelper::new on EVERY string of at most 2 characters over an alphabet with 1-, 2- and 3-byte characters
+    # (31 literals, enumerated: symbolic strings make CBMC's model of String/char decoding too expensive)
+    import itertools
+    alpha = ["a", "\\n", " ", "\\u{e9}", "\\u{20ac}"]
+    lits = [""] + ["".join(t) for n in (1, 2) for t in itertools.product(alpha, repeat=n)]
+    arr = ", ".join('"' + x + '"' for x in lits)
+    b2 = f"        let all: [&str; {len(lits)}] = [{arr}];\n"
+    b2 += f"""        let mut t = 0;
+        while t < {len(lits)} {{
+            let text = all[t];
+            let lh = LexerHelper::new(text);
+            let bytes = text.as_bytes();
+            let mut cnt = 0usize; let mut ok = true; let mut k = 0;
+            while k < bytes.len() {{
+                if bytes[k] == 10 {{
+                    if cnt >= lh.newline_list.len() || lh.newline_list[cnt] != k {{ ok = false; }}
+                    cnt += 1;
+                }}
+                k += 1;
+            }}
+"""
+    b2 += "    " + A("lexer.new.input_len_is_byte_length", "lh.input_len == bytes.len()")
+    b2 += "    " + A("lexer.new.newline_list_is_byte_positions_of_newlines", "ok && cnt == lh.newline_list.len()")
+    b2 += "            t += 1;\n        }\n"
+    h2 = Harness("b_lexer_new", ["C16", "C09"], b2,
+                 ["lexer.new.input_len_is_byte_length", "lexer.new.newline_list_is_byte_positions_of_newlines"],
+                 ["LexerHelper::new"], unwind=len(lits) + 2)
+    h2.bounded = "all 31 strings of at most 2 characters over {a, newline, blank, U+00E9 (2 bytes), U+20AC (3 bytes)}, enumerated"
+    return [h, h2]
 
 
 L0_HARNESSES: Dict[str, List[Harness]] = {
